@@ -206,6 +206,7 @@ PLAN["C01"] = {
     "pkg": "c01",
     "tests": [
         {"name": "TestSessionInvariants", "quick": (24000, 8), "thorough": (1600000, 16)},
+        {"name": "TestSubflowHierarchies", "quick": (16000, 8), "thorough": (1200000, 16)},
     ],
     "budget": {"quick": 600, "thorough": 5400},
     "rule": SCENARIO_RULE + "Oracle after every engine call that returned without Go error: the C01 validity predicate (session status, "
@@ -341,6 +342,7 @@ PLAN["C07"] = {
     "pkg": "c07",
     "tests": [
         {"name": "TestRouting", "quick": (80000, 8), "thorough": (6000000, 16)},
+        {"name": "TestRoutingInHistories", "quick": (12000, 8), "thorough": (800000, 16)},
     ],
     "budget": {"quick": 600, "thorough": 5400},
     "rule": "one-router flows (nodes after the router only send messages, so the router's context is still the context after the sprint): "
@@ -353,7 +355,10 @@ PLAN["C07"] = {
             "timeout category; random -> floor(r*n) from a twin random source) must agree on step exit, segment (exit, destination, "
             "operand), saved result (category name, value = match or operand for default truncated to MaxResultChars, input = operand) "
             "and on 'no category => failed run, failure event, no exit'. Non-trivial = >= 2 cases with a match, default, timeout, random "
-            "or no-category path; distinct by full case.",
+            "or no-category path; distinct by full case. TestRoutingInHistories applies the consistency half of the oracle to free-form "
+            "scenarios (several routers sharing result names, loops, sub-flows, resumes): whenever a step left a router node and nothing "
+            "visited later in the run can save the same result, the stored result names that node, a category owning the exit taken, "
+            "and the operand of the logged segment.",
     "assumptions": COMMON_ASSUMPTIONS + ["the reference router shares the individual test functions (cases.XTESTS) with the implementation on purpose; ordering, default handling, error skipping, category->exit mapping and result construction are independent",
                                          "values matched by has_date* tests are clock-dependent and only their category/exit is compared"],
 }
